@@ -14,6 +14,7 @@ from . import Violation, HarnessError, VERIF, REPO
 # the committed evidence of the real tree is never overwritten by such a run)
 _OUT = os.environ.get('VERIF_OUT_DIR') or VERIF
 EVID_DIR = os.path.join(_OUT, 'evidence')
+PARTIAL = False
 REPLAY_DIR = os.path.join(_OUT, 'replays')
 KNOWN_FILE = os.path.join(VERIF, 'known_findings.json')
 
@@ -246,9 +247,16 @@ def finish(prop, tier, seed, jobs, outs, t0, level_rule, nontrivial, extra=None,
     ev = {'property_id': prop, 'tier': tier, 'seed': seed, 'level': 'model_checking', 'coverage': cov,
           'assumptions': assumptions or [], 'wall_s': round(time.time() - t0, 2),
           'violations': len(reported)}
-    os.makedirs(EVID_DIR, exist_ok=True)
-    with open(os.path.join(EVID_DIR, f'{prop}.json'), 'w') as f:
+    evdir = os.path.join(EVID_DIR, 'partial') if PARTIAL else EVID_DIR
+    os.makedirs(evdir, exist_ok=True)
+    with open(os.path.join(evdir, f'{prop}.json'), 'w') as f:
         json.dump(ev, f, indent=1, default=str)
+    if not PARTIAL:
+        # one-line-per-tier history (the main file only holds the most recent run)
+        os.makedirs(os.path.join(EVID_DIR, 'tiers'), exist_ok=True)
+        brief = dict(ev, coverage={k: v for k, v in cov.items() if k not in ('scenarios', 'samples')})
+        with open(os.path.join(EVID_DIR, 'tiers', f'{prop}.{tier}.json'), 'w') as f:
+            json.dump(brief, f, indent=1, default=str)
     for ln in lines:
         print(ln, file=out)
     print(f'{prop} {tier}: scenarios={len(outs)} states={tot_states} transitions={tot_trans} '
